@@ -522,6 +522,10 @@ pub fn cli_grid<R: Rng>(rng: &mut R, n: usize) -> Vec<(Vec<String>, Vec<String>,
     out.push((sv(&["--replications", "1", "--steps", "-5"]), sv(&["p1", "circle"]), false));
     out.push((sv(&["--replications", "1", "--steps", "20"]), sv(&["p1", "trimer", "--radius", "0.43", "--angle", "64", "--distance", "0.21"]), false));
     out.push((sv(&["--replications", "2", "--steps", "200", "-p", "LJ"]), sv(&["p2", "trimer", "--radius", "1.0", "--distance", "0"]), false));
+    // outer discs touching the central one from the inside (radius + distance = 1), several replicas
+    out.push((sv(&["--replications", "2", "--steps", "200", "--inner-steps", "50"]), sv(&["p2", "trimer", "--radius", "0.55", "--distance", "0.45"]), false));
+    out.push((sv(&["--replications", "3", "--steps", "200", "--inner-steps", "50"]), sv(&["p1", "trimer", "--radius", "0.026", "--distance", "0.974", "--angle", "60"]), false));
+    out.push((sv(&["--replications", "8", "--steps", "100", "--inner-steps", "50"]), sv(&["p2gg", "trimer", "--radius", "0.544", "--distance", "0.456", "--angle", "90"]), false));
     // random grid
     while out.len() < n {
         let g = groups[rng.gen_range(0, 7)];
